@@ -1,4 +1,80 @@
+/-
+C19 — threads working on different configurations do not interfere.
+
+Model: `Model/Threads.lean`: per-thread build guard and tracking switch, one shared atomic
+sequence counter, schedules = arbitrary interleavings at operation granularity. Proved for
+every schedule, every number of threads and every starting state.
+
+What ties the model to the code:
+  * `C19_state_is_thread_local`: the two pieces of state the model keeps per thread ARE
+    `threading.local` subclasses in the current source (table regenerated from /repo on every
+    run); making either a plain global breaks this obligation;
+  * the correspondence run drives real threads under a line-level scheduler and compares each
+    thread's observations with the model's `outputsOf` for the same programs.
+Not expressible in this model (named, per the brief): pre-emption *inside* an operation —
+e.g. between reading and writing a shared cache entry (`signatures._signature_cache`), or a
+non-atomic counter; the atomicity of `next(itertools.count)` under the GIL is assumed. The
+scheduler-driven run is what explores those; it supports the tie, it does not prove it.
+-/
+import FiddleModel.Lemmas.ThreadsL
 import FiddleModel.Generated.Tables
+
 namespace Fiddle
-theorem C19_placeholder : True := trivial
+
+/-- The per-thread state of the model is thread-local state in the code. -/
+theorem C19_state_is_thread_local :
+    "fiddle/_src/building.py:_BuildGuardState" ∈ Tables.threadLocalState ∧
+    "fiddle/_src/history.py:_TrackingState" ∈ Tables.threadLocalState := by decide
+
+/-- Each thread observes exactly what it would observe running alone (sequence numbers up to
+    their order), under every interleaving, and ends in the same local state. -/
+theorem C19_noninterference (t : Nat) (sched : List (Nat × TOp)) (s : Sys) :
+    (outputsOf t (s.run sched).2).map TOut.erase =
+        (outputsOf t (s.run (programOf t sched)).2).map TOut.erase ∧
+      (s.run sched).1.threads t = (s.run (programOf t sched)).1.threads t :=
+  run_noninterference t sched s s rfl
+
+/-- The nested-build guard acts per thread: whether thread `t`'s `fdl.build` is rejected
+    depends only on whether `t` itself is inside a build — other threads' builds never make
+    it fail, and its own nested build is always rejected. -/
+theorem C19_guard_per_thread (s : Sys) (t : Nat) :
+    (s.step t .enterBuild).2 = .nestedBuildRejected ↔ (s.threads t).inBuild = true := by
+  unfold Sys.step
+  simp only []
+  split <;> simp_all
+
+/-- History suspension acts per thread: an edit is logged iff the editing thread's own switch
+    is on. -/
+theorem C19_tracking_per_thread (s : Sys) (t : Nat) (k : String) :
+    (∃ n, (s.step t (.log k)).2 = .logged k n) ↔ (s.threads t).tracking = true := by
+  unfold Sys.step
+  simp only []
+  split <;> simp_all
+
+/-- Sequence numbers are unique across all threads ... -/
+theorem C19_sequence_unique (sched : List (Nat × TOp)) (s : Sys) :
+    (allSeqs (s.run sched).2).Nodup :=
+  (run_seqs sched s).2.1.imp (fun h => Nat.ne_of_lt h)
+
+/-- ... and strictly increasing within each thread. -/
+theorem C19_sequence_increasing_per_thread (t : Nat) (sched : List (Nat × TOp)) (s : Sys) :
+    (seqsOf (outputsOf t (s.run sched).2)).Pairwise (· < ·) :=
+  (run_seqs sched s).2.1.sublist (seqsOf_thread_sublist t _)
+
+/-- Nested `suspend_tracking` restores exactly the flag it found (stack discipline), so after a
+    balanced block the thread is back where it started. -/
+theorem C19_suspend_resume_restores (s : Sys) (t : Nat) :
+    ((s.step t .suspend).1.step t .resume).1.threads t = s.threads t := by
+  simp [Sys.step, setThread_same, Sys.setThread]
+
+/-! ## Non-vacuity: two threads, one building, one editing under suspension -/
+
+private def schedEx : List (Nat × TOp) :=
+  [(0, .enterBuild), (1, .log "q"), (1, .suspend), (0, .enterBuild), (1, .log "r"),
+   (1, .enterBuild), (1, .resume), (0, .exitBuild), (1, .log "q"), (1, .exitBuild)]
+
+example : outputsOf 0 (({} : Sys).run schedEx).2 = [.ok, .nestedBuildRejected, .ok] ∧
+    outputsOf 1 (({} : Sys).run schedEx).2 = [.logged "q" 0, .ok, .notLogged, .ok, .ok, .logged "q" 1, .ok] := by
+  decide
+
 end Fiddle
